@@ -23,6 +23,9 @@ def families(tier):
     fam['long_lists_similar_names'] = family_similar_names
     # a variable type used two or three times with non-dyadic values: the same factors multiplied in different orders give products one ulp apart
     fam['repeated_type_nondyadic'] = lambda: R.family_single([0.7, 0.3, 0.1, 0.5], 3, [0.3, 1.0], patterns=['AAA', 'AAB', 'ABA', 'ABB'])
+    # pre-terminal probabilities around 2.2e-16 (machine epsilon as an ABSOLUTE number): gaps between co-parents below it, at it and above it -
+    # a tie test with an absolute tolerance is not transitive here
+    fam['near_epsilon'] = lambda: R.family_single([1.0, 0.7, 0.5, 0.3], 3, [2e-14, 1e-14, 6e-15, 3e-15, 1e-15], patterns=['AB', 'ABC'])
     if tier == 'thorough':
         fam['single_full2'] = lambda: R.family_single(R.V_FULL, 3, [1.0, 0.3], patterns=['A', 'AA', 'AB', 'AAA', 'AAB', 'ABA', 'ABB'])
         fam['single_full3'] = lambda: R.family_single(R.V_FULL, 2, [1.0, 0.3], patterns=['ABC'])
@@ -229,6 +232,16 @@ def run_shard(shard, tier, acc, oracle):
                     fails.append(('C01', 'abandoned: a queue abandoned after %d pops changes the run of the next queue: %r vs %r' % (j, seq3[:5], seq[:5])))
                     fails.append(('C02', 'abandoned: a queue abandoned after %d pops changes the run of the next queue (%d pops instead of %d)' % (j, len(seq3), len(seq))))
                     break
+        # queue bound: PcfgQueue.max_queue_size ("used for memory management", 50 000, not read by today's code) pinned to 1, 2, 3 - the size at which a
+        # bound would act on rulesets of this family; whatever a bounded queue does with its entries, the run must satisfy the same oracles
+        if (idx // ns) % 5 == 2 and len(base) >= 2:
+            for k in (1, 2, 3):
+                failsk, seqk = explore((PcfgGrammar, capped(PcfgQueue, k)), types, base, Acc0)
+                acc.count('runs_with_bounded_queue')
+                for orc, msg in failsk[:2]:
+                    fails.append((orc, 'bounded: with max_queue_size=%d: %s' % (k, msg)))
+                if failsk:
+                    break
         # determinism: a second, independent run must give the identical sequence
         if idx % 2 == 0 or fails:
             fails2, seq2 = explore(mods, types, base, Acc0)
@@ -241,6 +254,13 @@ def run_shard(shard, tier, acc, oracle):
         if idx % 997 == si:
             acc.sample({'family': name, 'types': types, 'base': base,
                         'emitted': [[list(map(list, pt)), p] for pt, p in seq[:8]]}, cap=1)
+
+
+def capped(PcfgQueue, k):
+    """The real queue class with its size bound pinned to k: the constructor's own `self.max_queue_size = 50000` lands in the setter and is dropped."""
+    class BoundedQueue(PcfgQueue):
+        max_queue_size = property(lambda self: k, lambda self, value: None)
+    return BoundedQueue
 
 
 class _Acc0:
@@ -269,6 +289,24 @@ def replay(case, oracle):
     types = {k: [float(x) for x in v] for k, v in case['types'].items()}
     base = [(float(p), list(r)) for p, r in case['base']]
     fails, seq = explore((PcfgGrammar, PcfgQueue), types, base, Acc0)
+    # the histories of run_shard: bounded queues, a run after an abandoned queue
+    for k in (1, 2, 3):
+        failsk, _ = explore((PcfgGrammar, capped(PcfgQueue, k)), types, base, Acc0)
+        fails += [(orc, 'bounded: with max_queue_size=%d: %s' % (k, msg)) for orc, msg in failsk[:2]]
+    g0 = R.mem_grammar(PcfgGrammar, types, base)
+    for j in (1, 2, 3):
+        try:
+            q0 = PcfgQueue(g0)
+            for _ in range(j):
+                if q0.next() is None:
+                    break
+        except Exception as e:
+            fails.append((oracle, 'raise: a queue built after an abandoned one raised %r' % (e,)))
+            break
+        fails3, seq3 = explore((PcfgGrammar, PcfgQueue), types, base, Acc0)
+        if seq3 != seq:
+            fails.append((oracle, 'abandoned: a queue abandoned after %d pops changes the run of the next queue' % j))
+            break
     fails = [f for f in fails if f[0] == oracle]
     if fails:
         return '; '.join(m for _, m in fails[:3])
